@@ -1,6 +1,6 @@
 (** C15 — equal?/eqv?/hash coherence; hash tables are finite maps: property theorems only. *)
 From Coq Require Import List ZArith Bool.
-From ChibiV Require Import Gen.C15_Consts C15.Table C15.TableProofs.
+From ChibiV Require Import Common.Words Gen.C15_Consts C15.Table C15.TableProofs C15.Obj C15.ObjProofs C15.ObjEqual C15.Combined.
 Import ListNotations.
 Local Open Scope Z_scope.
 
@@ -64,3 +64,56 @@ Print Assumptions map_laws.
 Theorem table_constants_match_source : INIT_BUCKETS = 23 /\ RESIZE_MUL = 3 /\ RESIZE_SHIFT = 2.
 Proof. exact (conj eq_refl (conj eq_refl eq_refl)). Qed.
 Print Assumptions table_constants_match_source.
+
+(** sexp_bignum_compare is 0 exactly for bignums denoting the same integer, whatever their
+    allocated lengths (unused high words). *)
+Theorem bignum_compare_zero : forall sa a sb b, wf_big sa a -> wf_big sb b ->
+  (bignum_compare sa a sb b = 0 <-> sa * val a = sb * val b).
+Proof. exact ObjProofs.bignum_compare_zero. Qed.
+Print Assumptions bignum_compare_zero.
+
+(** sexp_equalp_bound (with the repaired string case) answers "same abstract value" exactly and uses
+    at most one unit of bound per node, whenever the first argument fits the depth / node limits:
+    integers by value, flonums by bits, strings by their own bytes whatever offset / store, pairs and
+    vectors structurally (cdr-chains need no depth). *)
+Theorem equal_iff_same_abstract_value : forall a b fuel depth bound,
+  wf a -> wf b -> (osize a <= fuel)%nat -> within a depth bound ->
+  (absv a = absv b -> exists b', equal_bound fuel a b depth bound = EBound b' /\ bound - Z.of_nat (osize a) <= b' <= bound) /\
+  (absv a <> absv b -> equal_bound fuel a b depth bound = EFalse).
+Proof. exact ObjEqual.equal_iff_same_abstract_value. Qed.
+Print Assumptions equal_iff_same_abstract_value.
+
+Theorem equal_terminates : forall a b, wf a -> wf b -> inb a -> equal_op a b <> EFuel.
+Proof. exact ObjEqual.equal_terminates. Qed.
+Print Assumptions equal_terminates.
+
+Theorem equal_refl : forall a, wf a -> inb a -> equalb a a = true.
+Proof. exact ObjEqual.equal_refl. Qed.
+Print Assumptions equal_refl.
+
+Theorem equal_sym : forall a b, wf a -> wf b -> inb a -> inb b -> equalb a b = equalb b a.
+Proof. exact ObjEqual.equal_sym. Qed.
+Print Assumptions equal_sym.
+
+Theorem equal_trans : forall a b c, wf a -> wf b -> wf c -> inb a -> inb b ->
+  equalb a b = true -> equalb b c = true -> equalb a c = true.
+Proof. exact ObjEqual.equal_trans. Qed.
+Print Assumptions equal_trans.
+
+(** equal? objects have the same default hash for every bound (with both repairs): spare bignum
+    words, string offsets and store sizes do not reach the hash. *)
+Theorem hash_respects_equal : forall a b bound, wf a -> wf b -> inb a -> equalb a b = true -> hash_one a bound = hash_one b bound.
+Proof. exact ObjEqual.hash_respects_equal. Qed.
+Print Assumptions hash_respects_equal.
+
+Theorem eqv_implies_equal : forall a b, wf a -> wf b -> inb a -> eqvb a b = true -> equalb a b = true.
+Proof. exact ObjEqual.eqv_implies_equal. Qed.
+Print Assumptions eqv_implies_equal.
+
+(** Consequence for tables keyed by objects: with `hash' and equal? on well-formed objects inside
+    the limits (where equal? is an equivalence) the hypotheses of table_refines_map hold, so such a
+    table is a finite map modulo equal?. *)
+Theorem object_tables_are_maps : forall (V : Type) (ops : list (@op okey V)) (k : okey),
+  tref okey_hash okey_eq (run_table okey_hash okey_eq ops) k = mref okey_eq (run_map okey_eq ops) k.
+Proof. exact Combined.object_tables_are_maps. Qed.
+Print Assumptions object_tables_are_maps.
